@@ -12,7 +12,7 @@ p=re.findall(r'C\d\d', m['property'])
 q=re.findall(r'VH_(C\d\d)_', c)
 print((q or p)[0])")
   git -C /repo diff --quiet || { echo "$s: /repo dirty, stop"; exit 3; }
-  git -C /repo apply seeded/$s/patch.diff || { echo "$s: patch does not apply"; continue; }
+  P=/verif/seeded/$s/patch.diff; [ -f /verif/seeded/$s/patch_rebased.diff ] && P=/verif/seeded/$s/patch_rebased.diff; git -C /repo apply $P || { echo "$s: patch does not apply"; continue; }
   st=$(date +%s)
   ./check $prop quick > /tmp/seedreg_$s.out 2>&1; rc=$?
   e=$(date +%s)
